@@ -14,6 +14,7 @@ import (
 	"time"
 
 	"github.com/oxia-db/oxia/proto"
+	"github.com/oxia-db/oxia/server"
 )
 
 // ---------------------------------------------------------------- C15
@@ -286,7 +287,26 @@ func runC16(r *Run) {
 	}
 	r.Knobs["plan_size"] = nops
 	r.Sample = &wl.prog
+	// three prefixes per run out of a pool with mixed '/'-depths, plus neighbour names whose
+	// well-formed "-<digits>" keys sort right next to a prefix's key range in the engine's order
+	pool := []string{"seq", "seq/a", "q", "/t/a/x", "t/a", "r/s/t", "/q", "seq/a/b"}
 	prefixes := []string{"seq", "seq/a", "q"}
+	if g.Chance(70) {
+		prefixes = nil
+		for len(prefixes) < 3 {
+			c := pool[g.Intn(len(pool))]
+			dup := false
+			for _, x := range prefixes {
+				dup = dup || x == c
+			}
+			if !dup {
+				prefixes = append(prefixes, c)
+			}
+		}
+	}
+	wl.seqPrefixes = prefixes
+	neighbours := append(append([]string{}, pool...), "z", "t", "/t/b", "/t/a", "seq/b", "u/v", "r/s", "/r")
+	r.Knobs["prefixes"] = strings.Join(prefixes, ",")
 	subs := map[string]*seqSubscriber{}
 	lastGenerated := map[string]string{} // prefix -> latest generated key (per the committed log)
 	genCount := map[string]int{}
@@ -328,6 +348,9 @@ func runC16(r *Run) {
 				}
 			case k < 40: // plain put into the suffix space (well-formed suffix)
 				p := prefixes[gi.Intn(3)]
+				if gi.Chance(50) {
+					p = neighbours[gi.Intn(len(neighbours))]
+				}
 				key := fmt.Sprintf("%s-%020d", p, gi.Range(1, 40))
 				wl.doWrite(&proto.WriteRequest{Puts: []*proto.PutRequest{{Key: key, Value: []byte("plain")}}})
 			case k < 46:
@@ -415,11 +438,12 @@ type notifSubscriber struct {
 	done    chan struct{}
 	err     error
 	attachedCommit int64 // model commit offset when the subscription was opened
+	openedAtMs     int64 // simulated wall clock when the stream was opened
 }
 
 func (wl *w2Workload) subscribeNotifs(id int, start *int64) *notifSubscriber {
 	ctx, cancel := context.WithCancel(context.Background())
-	s := &notifSubscriber{id: id, start: start, cancel: cancel, done: make(chan struct{})}
+	s := &notifSubscriber{id: id, start: start, cancel: cancel, done: make(chan struct{}), openedAtMs: time.Now().UnixMilli()}
 	cl := wl.c.client()
 	wl.c.ctl.Go(func() {
 		defer close(s.done)
@@ -442,6 +466,20 @@ func (wl *w2Workload) subscribeNotifs(id int, start *int64) *notifSubscriber {
 		}
 	})
 	return s
+}
+
+// owed tells whether the batch of a committed offset was still inside the retention time
+// (with a margin for the delivery itself) when the subscriber opened its stream.
+func (wl *w2Workload) owed(s *notifSubscriber, off int64) bool {
+	if wl.notifRetention <= 0 {
+		return true
+	}
+	margin := int64(3000)
+	if int64(wl.c.model.NotifTs[off])+wl.notifRetention.Milliseconds() > s.openedAtMs+margin {
+		return true
+	}
+	wl.r.Count("notif_skipped_beyond_retention", 1)
+	return false
 }
 
 // checkNotifStream validates what a subscriber received against the model's per-offset batches.
@@ -486,7 +524,7 @@ func (wl *w2Workload) checkNotifStream(s *notifSubscriber, final bool) {
 			lo = resume
 		}
 		for off := lo + 1; off < nb.Offset; off++ {
-			if _, committed := m.Notifs[off]; committed {
+			if _, committed := m.Notifs[off]; committed && wl.owed(s, off) {
 				wl.fail("notif-gap", "subscriber %d (resume after %d): batch for committed offset %d was skipped (got %d next)", s.id, resume, off, nb.Offset)
 				return
 			}
@@ -502,7 +540,7 @@ func (wl *w2Workload) checkNotifStream(s *notifSubscriber, final bool) {
 		}
 		if lo >= -1 {
 			for off := lo + 1; off <= m.CommitOffset; off++ {
-				if _, committed := m.Notifs[off]; committed {
+				if _, committed := m.Notifs[off]; committed && wl.owed(s, off) {
 					wl.fail("notif-missing", "subscriber %d (resume after %d): committed offset %d never delivered (last delivered %d, commit offset %d)", s.id, resume, off, prev, m.CommitOffset)
 					return
 				}
@@ -513,8 +551,18 @@ func (wl *w2Workload) checkNotifStream(s *notifSubscriber, final bool) {
 }
 
 func runC17(r *Run) {
-	wl := newW2(r, "c17", w2Opts{sessions: true, indexes: true, sequences: true, bigRanges: true, restarts: true})
+	// retention: an hour (nothing is trimmed within a run) or short enough for trimming rounds
+	// to run between the operations of the program
+	rg := NewRng(r.Seed, "c17-retention")
+	retention := time.Hour
+	if rg.Chance(55) {
+		retention = []time.Duration{10 * time.Second, 30 * time.Second, 90 * time.Second}[rg.Intn(3)]
+	}
+	wl := newW2(r, "c17", w2Opts{sessions: true, indexes: true, sequences: true, bigRanges: true, restarts: true,
+		cfgMod: func(c *server.Config) { c.NotificationsRetentionTime = retention }})
 	defer wl.w.Close()
+	wl.notifRetention = retention
+	r.Knobs["notif_retention"] = retention.String()
 	g := wl.g
 	nops := g.Range(6, 40)
 	if r.Tier == "thorough" {
@@ -598,6 +646,11 @@ func runC17(r *Run) {
 				}
 			case k < 38:
 				wl.createSession(300000)
+			case k >= 90 && retention < time.Hour: // let batches age (fractions of the retention time)
+				d := time.Duration(float64(retention) * []float64{0.15, 0.35, 0.6, 0.8, 1.05}[gi.Intn(5)])
+				time.Sleep(d)
+				wl.prog = append(wl.prog, "age "+d.String())
+				r.Count("aging_sleeps", 1)
 			case k < 42 && len(wl.sessions) > 0:
 				if id := wl.sessions[gi.Intn(len(wl.sessions))]; !wl.closed[id] {
 					wl.closeSession(id)
